@@ -29,10 +29,16 @@ VALID_FAMILIES = ("T", "W", "TC", "RC", "OPT", "BUF", "FOL")
 BASE_TYPES = ("TaskLoadBuffer", "TaskUnloadBuffer")
 
 
+# optional constraints forced to apply by a ForceApplyNOptionalConstraints rule take part in the conflicts
+PROFILE_OPT = S.profile(min_tasks=1, max_tasks=3, horizon=(2, 6), p_no_horizon=10, p_resources=40, task_constraints=(1, 3), optional_rules=(0, 1), resource_constraints=(0, 1),
+                        buffers=(0, 0), optional_constraints=45, p_optional=15, p_release=10, p_due=10, p_work_amount=5)
+
+
 @st.composite
-def cases(draw):
-    spec = draw(S.specs(PROFILE))
-    g = S.Gen(draw, PROFILE)
+def cases(draw, forced_optional=False):
+    prof = PROFILE_OPT if forced_optional else PROFILE
+    spec = draw(S.specs(prof))
+    g = S.Gen(draw, prof)
     g.n_names = 100
     H = spec["horizon"] if spec["horizon"] is not None else 6
     names = [t["name"] for t in spec["tasks"]]
@@ -57,6 +63,16 @@ def cases(draw):
             ws = [a["res"] for a in spec["assign"] if a["task"] == t and a["res"] in {w["name"] for w in spec["workers"]}]
             if ws:
                 spec["constraints"].append({"type": "ResourceUnavailable", "name": g.name("c"), "res": ws[0], "intervals": [[0, H + 3]]})
+    if forced_optional:
+        # some members of the explicit conflicts become optional constraints that a force-apply rule obliges to apply
+        fresh = [c for c in spec["constraints"] if c["name"].startswith("c1") and len(c["name"]) >= 4 and not c.get("optional") and c["type"] != "ForceApplyNOptionalConstraints"]
+        forced = [c for c in fresh if draw(st.integers(0, 99)) < 50]
+        for c in forced:
+            c["optional"] = True
+        if forced:
+            k = draw(st.integers(1, len(forced)))
+            spec["constraints"].append({"type": "ForceApplyNOptionalConstraints", "name": g.name("c"), "cs": [c["name"] for c in forced], "n": len(forced) if k == len(forced) else k,
+                                        "kind": draw(st.sampled_from(["exact", "min"])) if k == len(forced) else "min"})
     perm = draw(st.permutations(list(range(len(spec["constraints"])))))
     cs = [spec["constraints"][i] for i in perm]
     spec["constraints"] = [c for c in cs if c["type"] != "ForceApplyNOptionalConstraints"] + [c for c in cs if c["type"] == "ForceApplyNOptionalConstraints"]
@@ -166,10 +182,17 @@ def prop(ctx, case, extra=None):
     # base + listed constraints must be infeasible on their own
     core_spec = base_of(spec, keep_names=set(names))
     fa = [c for c in core_spec["constraints"] if c["type"] == "ForceApplyNOptionalConstraints"]
+    have = {x["name"] for x in core_spec["constraints"]}
+    stubs = []
     for c in fa:
-        if any(n not in {x["name"] for x in core_spec["constraints"]} for n in c["cs"]):
-            ctx.event("core_needs_unlisted_optional_constraints")
-            return
+        for n in c["cs"]:
+            if n not in have:
+                # a listed force-apply rule counts an optional constraint that is not listed itself: the rule is rebuilt
+                # over a stand-in whose own condition is void (its applied flag is free), since only listed constraints count
+                have.add(n)
+                stubs.append({"type": "ConstraintFromExpression", "name": n, "optional": True, "expr": {"op": "bool", "v": True}})
+                ctx.event("core_with_unlisted_optional_constraint_stubbed")
+    core_spec["constraints"] = stubs + core_spec["constraints"]
     try:
         sc = probe.Session(core_spec, seed + 9)
     except B.BuildRejected as exc:
@@ -194,6 +217,7 @@ def prop(ctx, case, extra=None):
 def run_shard(ctx):
     n = {"quick": 110, "thorough": 1000}[ctx.tier]
     run_hypothesis(ctx, cases(), prop, max_examples=n)
+    run_hypothesis(ctx, cases(forced_optional=True), prop, max_examples=n // 2)
     # prop_optimize (debug=True + optimizer="optimize") is deliberately NOT run: on z3 4.12.6 the process aborts in about
     # half of the shards (SIGSEGV / "ASSERTION VIOLATION" while extracting the core of a z3.Optimize object) and the cores
     # that do come back are not cores (e.g. only an irrelevant TaskStartAt listed); see DESIGN.md section 5.
